@@ -685,8 +685,8 @@ def main():
     if rp:
         replay(c, rp)
     thorough = c.tier == "thorough"
-    n_scen = 30 if thorough else 3
-    cap = 300 if thorough else 120
+    n_scen = 30 if thorough else 2
+    cap = 300 if thorough else 80
     jobs = []
     for writer in S.WRITERS:
         for scen in range(n_scen):
@@ -712,9 +712,9 @@ def main():
                                   "the first/last writes and an even sample of the rest" % cap)
     for writer in S.WRITERS:
         c.floor("scenarios_%s" % writer, n_scen)
-    c.floor("deaths_delivered", 3500 if not thorough else 40000)
-    c.floor("errors_delivered", 1500 if not thorough else 15000)
-    c.floor("loader_ok", 3000 if not thorough else 30000)
+    c.floor("deaths_delivered", 1500 if not thorough else 40000)
+    c.floor("errors_delivered", 700 if not thorough else 15000)
+    c.floor("loader_ok", 1300 if not thorough else 30000)
     c.floor("status_histories", n_hist)
     c.floor("status_histories_fresh", n_hist // 5)
     c.floor("readbacks_with_description", n_hist // 2)
